@@ -385,7 +385,9 @@ fn near_header(r: &mut Rng) -> Value {
         2 => { m.insert("typ".into(), Value::Null); }
         _ => {}
     }
-    match r.below(14) {
+    match if r.chance(1, 40) { 14 + r.below(2) } else { r.below(14) } {
+        14 => { m.insert("kid".into(), json!("k".repeat(*r.pick(&[255usize, 256, 511, 512, 513, 600, 1024, 4096])))); }
+        15 => { m.insert("kid".into(), json!(r.pick(&multibyte_fillers()).clone())); }
         0 => { m.insert("kid".into(), json!("k1")); }
         1 => { m.insert("kid".into(), json!(1)); }
         2 => { m.insert("x5c".into(), json!(["QUJD"])); }
@@ -744,10 +746,19 @@ pub fn structural(r: &mut Rng, parts: &Parts, fmt: Fmt, key: KeyId, kb_key: Opti
                 out.push(("re-signed: header member of another type".into(), resign(parts, &h, &payload, key).render(fmt)));
             }
         }
-        for (k, v) in [("typ", json!("sd+jwt")), ("typ", json!(5)), ("kid", json!("k")), ("kid", json!(5)), ("x5c", json!(["QQ"])), ("x5c", json!([1])), ("cty", json!(null)), ("x5t", json!({})), ("alg", json!("none")), ("alg", json!("RS256")), ("crit", json!([1]))] {
+        // long header members (a header far larger than any fixed buffer), also multi-byte
+        let fills = multibyte_fillers();
+        for (k, v) in [("typ", json!("sd+jwt")), ("typ", json!(5)), ("kid", json!("k")), ("kid", json!(5)), ("x5c", json!(["QQ"])), ("x5c", json!([1])), ("cty", json!(null)), ("x5t", json!({})), ("alg", json!("none")), ("alg", json!("RS256")), ("crit", json!([1])),
+                       ("kid", json!("k".repeat(300))), ("kid", json!("k".repeat(600))), ("kid", json!("k".repeat(5000))), ("kid", json!(r.pick(&fills).clone())), ("typ", json!("t".repeat(1025))),
+                       ("x5c", json!(vec!["QUJD".repeat(300); 8])), ("zz_unknown", json!({"a": "v".repeat(2000), "b": (0..300).collect::<Vec<_>>()}))] {
+            // (the long ones cost the extracted model about a second each: a sample per flow unless every variant is asked for)
+            let long = serde_json::to_string(&v).map(|t| t.len() > 250).unwrap_or(false);
+            if long && !every && !r.chance(1, 8) {
+                continue;
+            }
             let mut h = header.clone();
             h[k] = v;
-            out.push((format!("re-signed: header {} added / replaced", k), resign(parts, &h, &payload, key).render(fmt)));
+            out.push((format!("re-signed: header {} added / replaced{}", k, if long { " (long)" } else { "" }), resign(parts, &h, &payload, key).render(fmt)));
         }
         out.push(("re-signed: header is an array".into(), resign(parts, &json!(["ES256"]), &payload, key).render(fmt)));
         out.push(("re-signed: header is a string".into(), resign(parts, &json!("ES256"), &payload, key).render(fmt)));
@@ -972,7 +983,18 @@ fn issuer_case(r: &mut Rng) -> (String, IssueArgs, bool) {
     let now = now();
     let cfg = TreeCfg { max_depth: 3, max_fanout: 3, path_safe_names: false, plain: false };
     let mut risky = false;
-    let (class, claims): (&str, Value) = match r.below(12) {
+    let (class, claims): (&str, Value) = match if r.chance(1, 45) { 12 } else { r.below(12) } {
+        12 => ("objects and arrays of 24 to 300 members", {
+            // sizes at which a per-object computation (a cap, a budget, a buffer) could give out
+            let n = *r.pick(&[24usize, 59, 60, 61, 62, 63, 64, 65, 100, 128, 130]);
+            let obj: Map<String, Value> = (0..n).map(|i| (format!("m{:03}", i), if i % 40 == 7 { json!({"in": [i]}) } else { json!(i) })).collect();
+            let arr: Vec<Value> = (0..n).map(|i| if i % 9 == 2 { json!({"s": i}) } else { json!(i) }).collect();
+            match r.below(3) {
+                0 => json!({"iss": "https://issuer.example", "exp": FAR_FUTURE, "o": obj}),
+                1 => json!({"iss": "https://issuer.example", "exp": FAR_FUTURE, "list": arr, "inner": {"o": obj}}),
+                _ => { let mut t = obj; t.insert("iss".into(), json!("https://issuer.example")); t.insert("exp".into(), json!(FAR_FUTURE)); Value::Object(t) }
+            }
+        }),
         0 => ("non-object claims", [json!([1, {"a": 2}]), json!("claims"), json!(12), Value::Null, json!(true), json!([]), json!(1.5)][r.below(7)].clone()),
         1 | 2 => ("any Unicode scalar values in names and strings", {
             let mut c = unicode_claims(r, 4);
